@@ -62,6 +62,17 @@ CLAIMS["C04"] = dict(
     technique="contract-based deductive verification: relational (two-run) VCs on the real functions; polynomial identities modulo unit-circle constraints (ring normalisation + z3)",
     note=OPS_NOTE + " cis laws (A3); A5 for mu; recentring of the uniform-field potential is decided in C08.")
 
+CLAIMS["C17"] = dict(
+    category="proof",
+    text="Real-arithmetic fixpoint: the real solve_for_psi_squared at psi=1, mu=0, epsilon=1, zero Laplacian action returns (1,1) and never asks "
+         "for a refusal, for all gamma>=0, u>0, dt>0; on every mesh the real operators give zero supercurrent, zero covariant Laplacian of the "
+         "constant (per-edge, A=0), zero Poisson right-hand side and zero normal current; by induction the state is stationary in exact "
+         "arithmetic. 'No change from rounding' is NOT decided by the proof; the bounded native run of the thorough tier found that it "
+         "fails on meshes beyond the explicit-Euler stability limit (known finding).",
+    design_ref="DESIGN.md section 4 C17",
+    technique="contract-based deductive verification: fixpoint VCs on the real step function and operators (z3/ring); bounded native stand-in for rounding",
+    note=OPS_NOTE + " A5 at zero right-hand side. dt growth is the C12 window rule at delta=0.")
+
 NA = {}
 
 checks = []
